@@ -1,0 +1,28 @@
+//go:build verif
+
+package store
+
+// AbortOpenVerif releases what a failed Open leaves behind (network transport,
+// snapshot store reaper, SQLite and Bolt handles). The production process
+// exits when Open fails, so there is no production code path for this; a
+// simulation harness that keeps running after a failed Open needs it.
+func (s *Store) AbortOpenVerif() {
+	if s.open.Is() {
+		return
+	}
+	if s.dechunkManager != nil {
+		s.dechunkManager.Close()
+	}
+	if s.raftTn != nil {
+		s.raftTn.Close()
+	}
+	if s.snapshotStore != nil {
+		s.snapshotStore.Close()
+	}
+	if s.db != nil {
+		s.db.Close()
+	}
+	if s.boltStore != nil {
+		s.boltStore.Close()
+	}
+}
